@@ -442,5 +442,19 @@ extern "C" void shim_containers(void *ctx, const uint32_t *ops, size_t n_ops) {
                 break;
         }
         dump(ctx, V, S, W);
+        // layout invariant of the shared Vector: never more elements than capacity (a vector
+        // that violates it has written past its allocation)
+        for (uint32_t r = 0; r < NV; ++r) {
+            if (V[r].size() > V[r].capacity()) {
+                uint32_t bad[3] = {r, static_cast<uint32_t>(V[r].size()), static_cast<uint32_t>(V[r].capacity())};
+                vq_emit(ctx, 990, bad, 3);
+            }
+        }
+        for (uint32_t r = 0; r < NW; ++r) {
+            if (W[r].size() > W[r].capacity()) {
+                uint32_t bad[3] = {r, static_cast<uint32_t>(W[r].size()), static_cast<uint32_t>(W[r].capacity())};
+                vq_emit(ctx, 991, bad, 3);
+            }
+        }
     }
 }
